@@ -8,6 +8,7 @@ import CogentModel.Proofs.HirschMain
 import CogentModel.Model.ClassicHMM
 import CogentModel.Proofs.ClassicHMM
 import CogentModel.Proofs.GapMerge
+import CogentModel.Proofs.GapRepaired3
 /-! # C18 — property theorems: aligners preserve their inputs and are optimal for their own model
 
 `S` is any score type with `+` and a strict total order respected by `+` (`ScoreLaws`; instances `Int`, `Rat`);
@@ -114,13 +115,25 @@ theorem merge_keeps_pairwise_counter :
     let pw : List (Gaps × Gaps × Int) := [([(1,1),(4,1)], [], 6), ([(4,1)], [(0,1)], 4), ([], [(0,2)], 2)]
     (pw.all (pairValid 4)) = true ∧ keepsAll false 4 pw = false := by decide
 
-/- FULL STATEMENT (not proved): merge_keeps_pairwise
-     ∀ reflen pw, (pw.all (pairValid reflen)) = true → keepsAll false reflen pw = true
-   is FALSE for the pinned code (`merge_keeps_pairwise_counter`; finding C18-p2m-injected-gap-inside-other-gap).
-   For the repaired variant (`fixed = true`, fixes/C18-p2m-gap-injection.patch) the statement
-     ∀ reflen pw, (pw.all (pairValid reflen)) = true → keepsAll true reflen pw = true
-   is expected to hold (no counterexample in the seeded search, see the harness) but is not proved here: it
-   needs a refinement proof of the dict/bisect arithmetic of `_GapOffset` against the row semantics. -/
+/-- **Merging keeps every pairwise alignment — for the PROPOSED REPAIR.**  This is a theorem about the model variant
+`fixed = true`, i.e. `pairwise_to_multiple` with `_gaps_for_injection` replaced by `fixes/C18-p2m-gap-injection.patch`
+(`seq_position`: alignment column → number of residues before it, a column inside a gap belongs to that gap); all other
+functions (`_GapOffset`, `_gap_union`/`_merged_gaps`, `_gap_difference`, `_subset_gaps_to_align_coords`,
+`_combined_refseq_gaps`, the injection loop) are the pinned code.  For EVERY reference length and EVERY list (any number
+≥ 0) of well-formed pairwise alignments to that reference (any gap layouts), the merge succeeds and, for every input
+pair, the merged reference row and the merged row of that sequence with their common-gap columns removed are exactly the
+pairwise alignment, and the rows have equal length.  The pinned code does NOT satisfy this
+(`merge_keeps_pairwise_counter`, known finding C18-p2m-injected-gap-inside-other-gap); the harness ties the repaired
+variant to the real `pairwise_to_multiple` with the patched function swapped in. -/
+theorem merge_keeps_pairwise_repaired (reflen : Int) (hreflen : 0 ≤ reflen) (pw : List (Gaps × Gaps × Int))
+    (hv : ∀ x ∈ pw, pairValid reflen x = true) : keepsAll true reflen pw = true :=
+  keepsAll_repaired reflen hreflen pw hv
+
+/-- the pieces of the pinned code the previous theorem rests on, stated on their own: the sequence→alignment
+`_GapOffset` returns, for EVERY query, the total length of the gaps at smaller positions -/
+theorem gapoffset_seq2aln_spec (g : Gaps) (hnd : (keys g).Nodup) (x : Int) :
+    (GapOffset.mk' g false).get x = sumLt g x := s2a_get g hnd x
+
 
 /-- **Linear-space (Hirschberg) alignment = full dynamic programming.**  `hirsch` mirrors
 `PairEmissionProbs.hirschberg` as the code now does it (forward half to the split row, backward half on the reversed
@@ -289,5 +302,7 @@ example : (hirsch (0 : Int) (· / 2) 0 5 exHMM 5 3).score = (viterbiGlobal exHMM
     (viterbiGlobal exHMM 5 3).path = some [(3, 1, 1), (3, 2, 2), (3, 3, 3), (1, 4, 3), (1, 5, 3)] := by decide
 example : pairValid 4 ([(1,1),(4,1)], [], 6) = true := by decide
 example : keepsAll true 4 [([(1,1),(4,1)], [], 6), ([(4,1)], [(0,1)], 4), ([], [(0,2)], 2)] = true := by decide
+example : ∀ x ∈ ([([(1,1),(4,1)], [], 6), ([(4,1)], [(0,1)], 4), ([], [(0,2)], 2)] : List (Gaps × Gaps × Int)),
+    pairValid 4 x = true := by decide
 
 end CogentModel.C18
